@@ -16,11 +16,29 @@ ParFn(res) == [id \in ResIds(res) |-> Norm(res[CHOOSE j \in DOMAIN res : res[j].
 DepFn(res) == [id \in ResIds(res) |-> res[(CHOOSE j \in DOMAIN res : res[j].id = id)].dep]
 ParentsClosed(res) == \A j \in DOMAIN res : Norm(res[j].par) = Root \/ Norm(res[j].par) \in ResIds(res)
 
+\* the call graph links threads to each other (top-level autograd operators hang beneath an annotation of the main thread, C13): for the
+\* per-thread clauses such a parent counts as the thread's root
+Local(res) == [j \in DOMAIN res |-> [res[j] EXCEPT !.par = IF Norm(@) \in ResIds(res) THEN @ ELSE -1]]
+Linked(res) == \E j \in DOMAIN res : Norm(res[j].par) # Root /\ Norm(res[j].par) \notin ResIds(res)
+
 Threads(r) == Range(r.threads)
 Ev(th) == Range(th.events)
 
 \* clause family for one builder; `pick` selects that builder's result and error from a thread record
 EachThread(r, P(_)) == \A th \in Threads(r) : P(th)
+
+\* the whole forest of a rank as the call graph left it (threads linked to each other included): depth = number of ancestors
+RankThreads(r, k) == { th \in Threads(r) : th.rank = k }
+RankIds(r, k, pick(_)) == UNION { ResIds(pick(th)) : th \in RankThreads(r, k) }
+RankPar(r, k, pick(_)) == [id \in RankIds(r, k, pick) |->
+                             LET th == CHOOSE t \in RankThreads(r, k) : id \in ResIds(pick(t)) IN ParFn(pick(th))[id]]
+RankDep(r, k, pick(_)) == [id \in RankIds(r, k, pick) |->
+                             LET th == CHOOSE t \in RankThreads(r, k) : id \in ResIds(pick(t)) IN DepFn(pick(th))[id]]
+ForestDepthOK(r, pick(_)) ==
+    \A k \in { th.rank : th \in Threads(r) } :
+        (\A th \in RankThreads(r, k) : Once(Ev(th), pick(th))) =>
+            LET par == RankPar(r, k, pick)  dep == RankDep(r, k, pick) IN
+            \A id \in DOMAIN par : (par[id] = Root \/ par[id] \in DOMAIN par) => dep[id] = NumAncestors(par, id)
 
 C03(r) ==
   [ in_domain          |-> EachThread(r, LAMBDA th : Laminar(Ev(th))),
@@ -35,14 +53,16 @@ C03(r) ==
     old_zero_parent    |-> EachThread(r, LAMBDA th : (th.oldErr = "" /\ Once(Ev(th), th.old)) => ZeroParents(Ev(th), ParFn(th.old))),
     old_depth          |-> EachThread(r, LAMBDA th : (th.oldErr = "" /\ Once(Ev(th), th.old) /\ ParentsClosed(th.old)) => DepthOK(Ev(th), ParFn(th.old), DepFn(th.old))),
     cg_no_exception    |-> r.cgErr = "",
-    cg_every_event_once|-> r.cgErr = "" => EachThread(r, LAMBDA th : Once(Ev(th), th.cg) /\ ParentsClosed(th.cg)),
-    cg_parent_positive |-> r.cgErr = "" => EachThread(r, LAMBDA th : Once(Ev(th), th.cg) => PositiveParents(Ev(th), ParFn(th.cg))),
-    cg_zero_parent     |-> r.cgErr = "" => EachThread(r, LAMBDA th : Once(Ev(th), th.cg) => ZeroParents(Ev(th), ParFn(th.cg))),
-    cgn_every_event_once |-> r.cgErr = "" => EachThread(r, LAMBDA th : Once(Ev(th), th.cgn) /\ ParentsClosed(th.cgn)),
-    cgn_parent_positive  |-> r.cgErr = "" => EachThread(r, LAMBDA th : Once(Ev(th), th.cgn) => PositiveParents(Ev(th), ParFn(th.cgn))),
-    cgn_zero_parent      |-> r.cgErr = "" => EachThread(r, LAMBDA th : Once(Ev(th), th.cgn) => ZeroParents(Ev(th), ParFn(th.cgn))),
-    cgn_depth            |-> r.cgErr = "" => EachThread(r, LAMBDA th : (Once(Ev(th), th.cgn) /\ ParentsClosed(th.cgn)) => DepthOK(Ev(th), ParFn(th.cgn), DepFn(th.cgn))),
-    cg_depth           |-> r.cgErr = "" => EachThread(r, LAMBDA th : (Once(Ev(th), th.cg) /\ ParentsClosed(th.cg)) => DepthOK(Ev(th), ParFn(th.cg), DepFn(th.cg))) ]
+    cg_every_event_once|-> r.cgErr = "" => EachThread(r, LAMBDA th : Once(Ev(th), th.cg) /\ ParentsClosed(Local(th.cg))),
+    cg_parent_positive |-> r.cgErr = "" => EachThread(r, LAMBDA th : Once(Ev(th), th.cg) => PositiveParents(Ev(th), ParFn(Local(th.cg)))),
+    cg_zero_parent     |-> r.cgErr = "" => EachThread(r, LAMBDA th : Once(Ev(th), th.cg) => ZeroParents(Ev(th), ParFn(Local(th.cg)))),
+    cgn_every_event_once |-> r.cgErr = "" => EachThread(r, LAMBDA th : Once(Ev(th), th.cgn) /\ ParentsClosed(Local(th.cgn))),
+    cgn_parent_positive  |-> r.cgErr = "" => EachThread(r, LAMBDA th : Once(Ev(th), th.cgn) => PositiveParents(Ev(th), ParFn(Local(th.cgn)))),
+    cgn_zero_parent      |-> r.cgErr = "" => EachThread(r, LAMBDA th : Once(Ev(th), th.cgn) => ZeroParents(Ev(th), ParFn(Local(th.cgn)))),
+    cgn_depth            |-> r.cgErr = "" => EachThread(r, LAMBDA th : (Once(Ev(th), th.cgn) /\ ~Linked(th.cgn)) => DepthOK(Ev(th), ParFn(th.cgn), DepFn(th.cgn))),
+    cg_depth_forest    |-> r.cgErr = "" => ForestDepthOK(r, LAMBDA th : th.cg),
+    cgn_depth_forest   |-> r.cgErr = "" => ForestDepthOK(r, LAMBDA th : th.cgn),
+    cg_depth           |-> r.cgErr = "" => EachThread(r, LAMBDA th : (Once(Ev(th), th.cg) /\ ~Linked(th.cg)) => DepthOK(Ev(th), ParFn(th.cg), DepFn(th.cg))) ]
 
 C03Tags(r) == (IF \E th \in Threads(r) : ZeroAtTouch(Ev(th)) THEN {"shape:zero_at_touch"} ELSE {}) \cup
               (IF \E th \in Threads(r) : ZeroPair(Ev(th)) THEN {"shape:zero_pair"} ELSE {})
